@@ -1324,6 +1324,8 @@ func runC19(c *lib.Ctx) {
 		vcases = append(vcases, c19ValCase{Val: v})
 	}
 	c19RunValues(c, vcases, false)
+	c19RunInstances(c)
+	c19RunFlavors(c)
 	// leg B
 	var pcases []c19PPCase
 	for _, s := range c19PPSweep {
@@ -1414,6 +1416,10 @@ func c19Replay(c *lib.Ctx) {
 		} else {
 			fmt.Println("  read(pp(form)) = form for all margins 20..120")
 		}
+	case "instance":
+		c19ReplayInstance(c, rec)
+	case "flavor":
+		c19ReplayFlavor(c, rec)
 	case "session":
 		c19ReplaySession(c, rec)
 	default:
